@@ -126,6 +126,70 @@ struct Inner {
     prng: Mutex<Rng>,
     /// serializer jitter: busy-wait before the first write of a buffer, in microseconds, by tag
     jitter: Vec<u64>,
+    /// child mode: print every observation as it happens (the process may abort)
+    stream: bool,
+}
+
+impl Inner {
+    /// Record an observation (the caller holds the trace lock).
+    fn rec(&self, tr: &mut Vec<Obs>, o: Obs, extra: &str) {
+        if self.stream {
+            let line = match &o {
+                Obs::Create(i) => format!("create {i}"),
+                Obs::Submit(i) => format!("submit {i}"),
+                Obs::BufNew { buf, worker } => format!("bufnew {buf} {worker}"),
+                Obs::BufOp { buf } => format!("bufop {buf} {extra}"),
+                Obs::Consume { buf } => format!("consume {buf}"),
+                Obs::More(b) => format!("more {}", *b as u8),
+                Obs::Commit { bufs, ops } => format!("commit {} {}", show_nats(bufs), show_ops(ops)),
+                Obs::DropBegin => "dropbegin".into(),
+                Obs::DropEnd => "dropend".into(),
+            };
+            let so = std::io::stdout();
+            let mut l = so.lock();
+            let _ = writeln!(l, "{line}");
+            let _ = l.flush();
+        }
+        tr.push(o);
+    }
+}
+
+fn parse_key(s: &str) -> Option<SKey> {
+    let p: Vec<u32> = s.split(':').filter_map(|x| x.parse().ok()).collect();
+    if p.len() == 4 { Some(SKey(p[0], p[1], p[2], p[3])) } else { None }
+}
+fn parse_op(s: &str) -> Option<Op> {
+    let (k, v) = s.split_once('=')?;
+    Some((parse_key(k)?, if v == "-" { None } else { Some(v.parse().ok()?) }))
+}
+fn parse_ops(s: &str) -> Vec<Op> { if s == "-" { vec![] } else { s.split(',').filter_map(parse_op).collect() } }
+fn parse_nats(s: &str) -> Vec<u64> { if s == "-" { vec![] } else { s.split(';').filter_map(|x| x.parse().ok()).collect() } }
+
+/// Parent side of child mode: rebuild the observations from the child's stdout.
+fn parse_stream(txt: &str) -> (Vec<Obs>, HashMap<u64, (Vec<Op>, Vec<u32>)>) {
+    let mut tr = vec![];
+    let mut bufs: HashMap<u64, (Vec<Op>, Vec<u32>)> = HashMap::new();
+    for line in txt.lines() {
+        let t: Vec<&str> = line.split(' ').collect();
+        match t.as_slice() {
+            ["create", i] => tr.push(Obs::Create(i.parse().unwrap())),
+            ["submit", i] => tr.push(Obs::Submit(i.parse().unwrap())),
+            ["bufnew", b, w] => { let b: u64 = b.parse().unwrap(); bufs.entry(b).or_default(); tr.push(Obs::BufNew { buf: b, worker: w.parse().unwrap() }) }
+            ["bufop", b, tag, op] => {
+                let b: u64 = b.parse().unwrap();
+                let e = bufs.entry(b).or_default();
+                e.0.push(parse_op(op).unwrap()); e.1.push(tag.parse().unwrap());
+                tr.push(Obs::BufOp { buf: b })
+            }
+            ["consume", b] => tr.push(Obs::Consume { buf: b.parse().unwrap() }),
+            ["more", b] => tr.push(Obs::More(*b == "1")),
+            ["commit", bs, ops] => tr.push(Obs::Commit { bufs: parse_nats(bs), ops: parse_ops(ops) }),
+            ["dropbegin"] => tr.push(Obs::DropBegin),
+            ["dropend"] => tr.push(Obs::DropEnd),
+            _ => {}
+        }
+    }
+    (tr, bufs)
 }
 
 #[derive(Clone)]
@@ -165,7 +229,7 @@ impl HSerBuf {
         let e = b.entry(self.id).or_default();
         e.0.push(op);
         e.1.push(tag);
-        tr.push(Obs::BufOp { buf: self.id });
+        self.db.rec(&mut tr, Obs::BufOp { buf: self.id }, &format!("{} {}", tag, show_op(&op)));
     }
 }
 
@@ -209,7 +273,7 @@ impl WriteBatch for HWriteBatch {
         let mut tr = self.db.trace.lock().unwrap();
         self.ops.extend(buffer.ops.iter().copied());
         self.bufs.push(buffer.id);
-        tr.push(Obs::Consume { buf: buffer.id });
+        self.db.rec(&mut tr, Obs::Consume { buf: buffer.id }, "");
     }
     fn commit(self) {
         let mut tr = self.db.trace.lock().unwrap();
@@ -217,7 +281,7 @@ impl WriteBatch for HWriteBatch {
         for (k, v) in &self.ops {
             match v { Some(v) => { st.insert(*k, *v); } None => { st.remove(k); } }
         }
-        tr.push(Obs::Commit { bufs: self.bufs.clone(), ops: self.ops.clone() });
+        self.db.rec(&mut tr, Obs::Commit { bufs: self.bufs.clone(), ops: self.ops.clone() }, "");
     }
     fn should_write_more(&self) -> bool {
         let mut tr = self.db.trace.lock().unwrap();
@@ -227,7 +291,7 @@ impl WriteBatch for HWriteBatch {
             Policy::Threshold(n) => self.ops.len() < n,
             Policy::Random(num, den) => self.db.prng.lock().unwrap().chance(num, den),
         };
-        tr.push(Obs::More(b));
+        self.db.rec(&mut tr, Obs::More(b), "");
         b
     }
 }
@@ -257,7 +321,7 @@ impl KvDatabase for HDb {
         let id = self.0.next_buf.fetch_add(1, Ordering::SeqCst);
         let mut tr = self.0.trace.lock().unwrap();
         self.0.bufs.lock().unwrap().entry(id).or_default();
-        tr.push(Obs::BufNew { buf: id, worker: worker_index() });
+        self.0.rec(&mut tr, Obs::BufNew { buf: id, worker: worker_index() }, "");
         HSerBuf { id, ops: vec![], db: self.0.clone(), jittered: false }
     }
 }
@@ -295,12 +359,14 @@ struct Case {
     hold: usize,
     thread_seeds: Vec<u64>,
     pre_drop_wait_us: u64,
+    /// epochs that are created but never submitted (abort scenarios; run in a child process)
+    skip: Vec<u64>,
 }
 
 impl Case {
     fn describe(&self) -> String {
-        format!("nser={} threads={} batches={} policy={:?} hold={} jitter_max={} wait={}us plan={}",
-            self.n_ser, self.n_threads, self.plan.len(), self.policy, self.hold,
+        format!("nser={} threads={} batches={} never_submitted={:?} policy={:?} hold={} jitter_max={} wait={}us plan={}",
+            self.n_ser, self.n_threads, self.plan.len(), self.skip, self.policy, self.hold,
             self.jitter.iter().max().copied().unwrap_or(0), self.pre_drop_wait_us,
             self.plan.iter().map(|b| format!("[{}]", b.iter().map(|o| format!("{:?}", o)).collect::<Vec<_>>().join(" "))).collect::<Vec<_>>().join(""))
     }
@@ -362,7 +428,25 @@ fn gen_case(rng: &mut Rng, tier_thorough: bool, idx: u64) -> Case {
         hold: rng.range(1, 6) as usize,
         thread_seeds: (0..n_threads).map(|_| rng.next()).collect(),
         pre_drop_wait_us: if rng.chance(1, 3) { rng.below(300) } else { 0 },
+        skip: vec![],
     }
+}
+
+/// Scenarios that may abort the process: no serializer at all (kind 0), a created batch that is never
+/// submitted while a later one is (kind 1), only the last created batch never submitted (kind 2: no abort).
+fn gen_abort_case(rng: &mut Rng, kind: u64) -> Case {
+    let mut c = gen_case(rng, false, 0);
+    while c.plan.len() < 2 || c.plan.len() > 12 { c = gen_case(rng, false, 0); }
+    c.jitter = vec![0; c.plan.len()];
+    for (i, b) in c.plan.iter_mut().enumerate() { if b.is_empty() { b.push(UOp::PutA(0, 7000 + i as u64)); } }
+    c.n_threads = c.n_threads.min(3);
+    c.thread_seeds.truncate(c.n_threads);
+    match kind {
+        0 => { c.n_ser = 0; c.n_threads = 1; c.thread_seeds.truncate(1); c.plan.truncate(2); c.jitter.truncate(2); }
+        1 => { c.n_ser = c.n_ser.min(3); c.skip = vec![rng.below(c.plan.len() as u64 - 1)]; }
+        _ => { c.n_ser = c.n_ser.min(3); c.skip = vec![c.plan.len() as u64 - 1]; }
+    }
+    c
 }
 
 struct RunResult {
@@ -372,7 +456,7 @@ struct RunResult {
     panics: Vec<String>,
 }
 
-fn run_case(c: &Case, policy_seed: u64) -> RunResult {
+fn run_case(c: &Case, policy_seed: u64, stream: bool) -> RunResult {
     let inner = Arc::new(Inner {
         store: Mutex::new(BTreeMap::new()),
         trace: Mutex::new(Vec::new()),
@@ -381,6 +465,7 @@ fn run_case(c: &Case, policy_seed: u64) -> RunResult {
         policy: c.policy,
         prng: Mutex::new(Rng::new(policy_seed)),
         jitter: c.jitter.clone(),
+        stream,
     });
     let db = HDb(inner.clone());
     let engine = DbBacked::new(db.clone(), Configuration::builder().cache_capacity(1 << 14).serialization_workers(c.n_ser).build());
@@ -405,8 +490,8 @@ fn run_case(c: &Case, policy_seed: u64) -> RunResult {
                         let (idx, batch) = held.swap_remove(j);
                         // the log order of submits is the real order of the channel sends
                         let mut tr = inner.trace.lock().unwrap();
+                        inner.rec(&mut tr, Obs::Submit(idx), "");
                         wb.submit_write_batch(batch);
-                        tr.push(Obs::Submit(idx));
                     };
                     loop {
                         // creation: epoch order = order of this critical section
@@ -416,7 +501,7 @@ fn run_case(c: &Case, policy_seed: u64) -> RunResult {
                             if i >= n { None } else {
                                 next.store(i + 1, Ordering::SeqCst);
                                 let b = wb.new_write_batch();
-                                tr.push(Obs::Create(i));
+                                inner.rec(&mut tr, Obs::Create(i), "");
                                 Some((i, b))
                             }
                         };
@@ -434,6 +519,10 @@ fn run_case(c: &Case, policy_seed: u64) -> RunResult {
                                 }
                             });
                         }
+                        if c.skip.contains(&i) {
+                            std::mem::forget(batch);   // never submitted (dropping it would panic in the user thread)
+                            continue;
+                        }
                         held.push((i, batch));
                         while held.len() > c.hold || (!held.is_empty() && rng.chance(1, 3)) {
                             submit_one(&mut rng, &mut held);
@@ -450,10 +539,10 @@ fn run_case(c: &Case, policy_seed: u64) -> RunResult {
         }
     });
     spin_us(c.pre_drop_wait_us);
-    inner.trace.lock().unwrap().push(Obs::DropBegin);
+    { let mut tr = inner.trace.lock().unwrap(); inner.rec(&mut tr, Obs::DropBegin, ""); }
     let r = catch_unwind(AssertUnwindSafe(|| drop(wb)));
     if r.is_err() { panics.lock().unwrap().push("drop panicked".into()); }
-    inner.trace.lock().unwrap().push(Obs::DropEnd);
+    { let mut tr = inner.trace.lock().unwrap(); inner.rec(&mut tr, Obs::DropEnd, ""); }
     drop(map_a); drop(map_b); drop(set_c);
     let trace = inner.trace.lock().unwrap().clone();
     let bufs = inner.bufs.lock().unwrap().clone();
@@ -479,7 +568,8 @@ struct Stats {
 }
 
 /// Returns (lines (op, impl)), failures, stats.
-fn judge(c: &Case, r: &RunResult) -> (Vec<(String, String)>, Vec<Fail>, Stats) {
+fn judge(c: &Case, r: &RunResult, child: Option<bool>) -> (Vec<(String, String)>, Vec<Fail>, Stats) {
+    // child = Some(aborted): the case ran in a child process that may have aborted; only the trace is judged
     let n = c.plan.len();
     let mut fails: Vec<Fail> = vec![];
     let mut stats = Stats::default();
@@ -528,7 +618,7 @@ fn judge(c: &Case, r: &RunResult) -> (Vec<(String, String)>, Vec<Fail>, Stats) {
         }
     }
     let want: Vec<u64> = (0..n as u64).collect();
-    if committed != want {
+    if child.is_none() && committed != want {
         let sig = if committed.len() < n { "lost" } else { "order" };
         fails.push(Fail { sig: sig.into(), desc: format!("after drop the committed batches are {:?}, expected 0..{}", committed, n) });
     }
@@ -542,7 +632,7 @@ fn judge(c: &Case, r: &RunResult) -> (Vec<(String, String)>, Vec<Fail>, Stats) {
             }
         }
     }
-    if r.bufs.len() != n { fails.push(Fail { sig: "lost".into(), desc: format!("{} serialization buffers for {} batches", r.bufs.len(), n) }); }
+    if child.is_none() && r.bufs.len() != n { fails.push(Fail { sig: "lost".into(), desc: format!("{} serialization buffers for {} batches", r.bufs.len(), n) }); }
     // ---- O4: final content = sequential application in creation order
     let mut refm: BTreeMap<SKey, u64> = BTreeMap::new();
     for i in 0..n {
@@ -550,7 +640,7 @@ fn judge(c: &Case, r: &RunResult) -> (Vec<(String, String)>, Vec<Fail>, Stats) {
             match o.val() { Some(v) => { refm.insert(o.skey(), v); } None => { refm.remove(&o.skey()); } }
         }
     }
-    if refm != r.store {
+    if child.is_none() && refm != r.store {
         fails.push(Fail { sig: "final".into(), desc: format!("final store {:?} differs from sequential application {:?}", r.store, refm) });
     }
 
@@ -627,8 +717,18 @@ fn judge(c: &Case, r: &RunResult) -> (Vec<(String, String)>, Vec<Fail>, Stats) {
     }
     let kv: Vec<String> = r.store.iter().map(|(k, v)| format!("{}={}", show_key(k), v)).collect();
     let chunks = if log_chunks.is_empty() { "-".to_string() } else { log_chunks.iter().map(|c| c.len().to_string()).collect::<Vec<_>>().join("+") };
-    lines.push(("end".into(), format!("store {} applied={} chunks={} crashed=0",
-        if kv.is_empty() { "-".to_string() } else { kv.join(",") }, committed.len(), chunks)));
+    match child {
+        None => lines.push(("end".into(), format!("store {} applied={} chunks={} crashed=0",
+            if kv.is_empty() { "-".to_string() } else { kv.join(",") }, committed.len(), chunks))),
+        Some(aborted) => {
+            if !aborted && !c.skip.is_empty() {
+                // only the last created batch was withheld: everything else must be durable
+                let want: Vec<u64> = (0..n as u64).filter(|e| !c.skip.contains(e)).collect();
+                if committed != want { fails.push(Fail { sig: "lost".into(), desc: format!("committed {:?}, expected {:?}", committed, want) }); }
+            }
+            lines.push(("crashed".into(), format!("crashed {}", aborted as u8)));
+        }
+    }
     (lines, fails, stats)
 }
 
@@ -638,8 +738,85 @@ fn case_hash(c: &Case) -> u64 {
     h.finish()
 }
 
+/// Runs one abort scenario in a child process; returns (trace lines, failures).
+fn run_abort_scenario(seed: u64, kind: u64) -> (Case, Vec<(String, String)>, Vec<Fail>, bool) {
+    let mut rng = Rng::new(seed);
+    let c = gen_abort_case(&mut rng, kind);
+    let exe = std::env::current_exe().unwrap();
+    let out = std::process::Command::new(exe)
+        .args(["--child", &seed.to_string(), &kind.to_string()])
+        .stdin(std::process::Stdio::null()).stderr(std::process::Stdio::null())
+        .output().expect("spawn child");
+    use std::os::unix::process::ExitStatusExt;
+    let aborted = out.status.signal() == Some(6);
+    let mut fails = vec![];
+    if !aborted && !out.status.success() {
+        fails.push(Fail { sig: "child".into(), desc: format!("child ended with {:?}", out.status) });
+    }
+    let (trace, bufs) = parse_stream(&String::from_utf8_lossy(&out.stdout));
+    let r = RunResult { trace, bufs, store: BTreeMap::new(), panics: vec![] };
+    let (lines, f2, _) = judge(&c, &r, Some(aborted));
+    fails.extend(f2);
+    (c, lines, fails, aborted)
+}
+
+/// The write manager can abort the whole process (panic while unwinding), e.g. when a mutation makes a
+/// batch unreachable.  The generated cases therefore run in a worker process; if it dies the supervisor
+/// turns that into an oracle failure naming the case that was running.
+fn supervise(a: &qbice_verif_harness::Args) {
+    std::fs::create_dir_all(&a.out).unwrap();
+    let progress = format!("{}/progress.txt", a.out);
+    let _ = std::fs::remove_file(&progress);
+    let exe = std::env::current_exe().unwrap();
+    let mut argv: Vec<String> = std::env::args().skip(1).collect();
+    argv.push("--worker".into());
+    let st = std::process::Command::new(exe).args(&argv).stderr(std::process::Stdio::null()).status().expect("spawn worker");
+    if st.success() { return; }
+    let prog = std::fs::read_to_string(&progress).unwrap_or_default();
+    let nums: Vec<u64> = prog.split_whitespace().filter_map(|x| x.parse().ok()).collect();
+    let prog = if nums.len() == 2 {
+        // regenerate the case the worker was running
+        let mut rng = Rng::new(nums[0]);
+        let mut c = gen_case(&mut rng, a.tier == "thorough", 0);
+        let _ = rng.next();
+        for i in 0..nums[1] { c = gen_case(&mut rng, a.tier == "thorough", i + 1); let _ = rng.next(); }
+        format!("gen_seed={} gen_index={} {}", nums[0], nums[1], c.describe())
+    } else { prog };
+    // keep only complete, paired lines of what the worker managed to flush
+    let rd = |n: &str| -> Vec<String> {
+        let t = std::fs::read_to_string(format!("{}/{}", a.out, n)).unwrap_or_default();
+        let mut v: Vec<String> = t.split('\n').map(|x| x.to_string()).collect();
+        v.pop();
+        v
+    };
+    let (ops, imp) = (rd("ops.txt"), rd("impl.txt"));
+    let k = ops.len().min(imp.len());
+    // cut back to the last complete case
+    let cut = (0..k).rev().find(|i| ops[*i].starts_with("new ")).unwrap_or(0);
+    std::fs::write(format!("{}/ops.txt", a.out), ops[..cut].iter().map(|l| format!("{l}\n")).collect::<String>()).unwrap();
+    std::fs::write(format!("{}/impl.txt", a.out), imp[..cut].iter().map(|l| format!("{l}\n")).collect::<String>()).unwrap();
+    let report = format!(
+        "{{\"evaluations\":{},\"distinct_nontrivial\":0,\"rule\":\"\",\"samples\":[],\"distribution\":{{\"worker_died\":1}},\"oracle_failures\":[{{\"sig\":\"abort\",\"desc\":{},\"case\":{}}}]}}",
+        ops[..cut].iter().filter(|l| l.starts_with("new ")).count(),
+        jstr(&format!("the process running the real WriteBehind died ({:?}) during the case below: some submitted batch can no longer reach the store", st)),
+        jstr(&prog));
+    std::fs::write(format!("{}/report.json", a.out), report).unwrap();
+}
+
 fn main() {
     let a = args();
+    if a.rest.len() == 3 && a.rest[0] == "--child" {
+        let seed: u64 = a.rest[1].parse().unwrap();
+        let kind: u64 = a.rest[2].parse().unwrap();
+        let mut rng = Rng::new(seed);
+        let c = gen_abort_case(&mut rng, kind);
+        let _ = run_case(&c, seed ^ 0x55, true);
+        return;
+    }
+    if !a.rest.iter().any(|x| x == "--worker") {
+        supervise(&a);
+        return;
+    }
     let thorough = a.tier == "thorough";
     let n_cases = a.n.unwrap_or(if thorough { 1500 } else { 350 });
     let mut out = Out::new(&a.out);
@@ -662,13 +839,18 @@ fn main() {
     if let Some((seed, _)) = replay { rng = Rng::new(seed); }
 
     let total = if let Some((_, idx)) = replay { idx + 1 } else { n_cases };
+    let progress = std::fs::File::create(format!("{}/progress.txt", a.out)).unwrap();
     for ci in 0..total {
         let c = gen_case(&mut rng, thorough, ci);
         let policy_seed = rng.next();
         let reps = if let Some((_, idx)) = replay { if ci == idx { 300 } else { 0 } } else { 1 };
         for _ in 0..reps {
-            let r = run_case(&c, policy_seed);
-            let (lines, fails, st) = judge(&c, &r);
+            {
+                use std::os::unix::fs::FileExt;
+                let _ = progress.write_all_at(format!("{:020} {:020}\n", if let Some((sd, _)) = replay { sd } else { a.seed }, ci).as_bytes(), 0);
+            }
+            let r = run_case(&c, policy_seed, false);
+            let (lines, fails, st) = judge(&c, &r, None);
             evaluations += 1;
             for (o, i) in &lines { out.line(o, i); }
             let h = case_hash(&c);
@@ -694,6 +876,23 @@ fn main() {
                     failures.push(format!("{{\"sig\":{},\"desc\":{},\"case\":{}}}", jstr(&f.sig), jstr(&f.desc.chars().take(1500).collect::<String>()),
                         jstr(&format!("gen_seed={} gen_index={} {}\n{}", a.seed, ci, c.describe(), trace_txt.chars().take(6000).collect::<String>()))));
                 }
+            }
+        }
+    }
+    // scenarios that may abort the process (stall rule at shutdown, no serializer), each in a child process
+    if replay.is_none() {
+        let n_abort = if thorough { 30 } else { 9 };
+        for j in 0..n_abort {
+            let kind = j % 3;
+            let seed = a.seed.wrapping_mul(7919).wrapping_add(j);
+            let (c, lines, fails, aborted) = run_abort_scenario(seed, kind);
+            evaluations += 1;
+            for (o, i) in &lines { out.line(o, i); }
+            bump(&mut dist, format!("child_scenario_kind{}_{}", kind, if aborted { "aborted" } else { "returned" }), 1);
+            for f in fails {
+                let trace_txt: String = lines.iter().map(|(o, i)| format!("{o} => {i}")).collect::<Vec<_>>().join("\n");
+                failures.push(format!("{{\"sig\":{},\"desc\":{},\"case\":{}}}", jstr(&f.sig), jstr(&f.desc),
+                    jstr(&format!("abort_seed={} kind={} {}\n{}", seed, kind, c.describe(), trace_txt.chars().take(6000).collect::<String>()))));
             }
         }
     }
